@@ -240,4 +240,6 @@ func init() {
 	register("C22", newC22)
 	register("C21", newC21)
 	register("C25", newC25, newC25Requestor)
+	register("C09", newC09)
+	register("C10", newC10)
 }
